@@ -55,6 +55,7 @@ def codeBlockOk (e : RefEnv) (what : String) (allowEmpty : Bool) (b : ByteArray)
   | none => [s!"{what}: does not parse (unknown opcode or truncated operands): {bytes}"]
   | some nodes =>
     (if check nodes 0 then [] else [s!"{what}: stack discipline / missing return: {bytes}"]) ++
+    (if check nodes 0 ∧ !exactReturn nodes 0 then [s!"{what}: values are left on the stack at the return, or code follows it: {bytes}"] else []) ++
     (nodesRefs e nodes).map (fun m => s!"{what}: {m}")
 
 def passCodeOk (e : RefEnv) (pi : Nat) (p : Pass) : List String := Id.run do
